@@ -73,7 +73,7 @@ json.dump(errs, open(sys.argv[2], "w"))
 
 def _run_session(workdir, cfg, order, strategy="in memory", salt=0, fetch_all=True,
                 parse=True, cs=4, sizes=None, payload_fn=None, exit_flush=False,
-                close_after=None, reuse_buffer=False):
+                close_after=None, reuse_buffer=False, fetch_positions=None):
     # close_after: the accessor is closed after that many stores and the session goes on
     #   with the SAME object (the caller makes sure the rest goes to other shards);
     # reuse_buffer: every payload is handed over in ONE bytearray that the caller
@@ -166,7 +166,7 @@ def _run_session(workdir, cfg, order, strategy="in memory", salt=0, fetch_all=Tr
         if fetch_all:
             acc2 = sfa.ShardedFileAccessor(d)
             try:
-                for pos in all_pos(grid):
+                for pos in (fetch_positions if fetch_positions is not None else all_pos(grid)):
                     try:
                         b = acc2.fetch_chunk(KEY, coords_of(pos, cs, sizes))
                         if isinstance(b, (bytes, bytearray)):
